@@ -379,13 +379,13 @@ u_bigcap(uint64_t idx, void *arg)
             size_t steps = 0;
             uint64_t first = 0, last = 0;
             if (ty == 0) {
-                for (octet_ring_iter(&it, &r8, RING_BUFFER_ITER_OLD_TO_NEW); !rb_iter_done(&it); rb_iter_advance(&it), steps++) {
+                for (octet_ring_iter(&it, &r8, RING_BUFFER_ITER_OLD_TO_NEW); !rb_iter_done(&it) && steps <= n; rb_iter_advance(&it), steps++) {
                     last = octet_ring_inspect(&r8, &it);
                     if (steps == 0)
                         first = last;
                 }
             } else {
-                for (ring64_iter(&it, &r64, RING_BUFFER_ITER_OLD_TO_NEW); !rb_iter_done(&it); rb_iter_advance(&it), steps++) {
+                for (ring64_iter(&it, &r64, RING_BUFFER_ITER_OLD_TO_NEW); !rb_iter_done(&it) && steps <= n; rb_iter_advance(&it), steps++) {
                     last = ring64_inspect(&r64, &it);
                     if (steps == 0)
                         first = last;
@@ -397,7 +397,7 @@ u_bigcap(uint64_t idx, void *arg)
                         steps, n, first, last, oldest, next - 1);
             steps = 0;
             if (ty == 1) {
-                for (ring64_iter(&it, &r64, RING_BUFFER_ITER_NEW_TO_OLD); !rb_iter_done(&it); rb_iter_advance(&it), steps++) {
+                for (ring64_iter(&it, &r64, RING_BUFFER_ITER_NEW_TO_OLD); !rb_iter_done(&it) && steps <= n; rb_iter_advance(&it), steps++) {
                     uint64_t v = ring64_inspect(&r64, &it);
                     if (v != next - 1 - steps) {
                         vh_fail("iter-new-to-old", "type=u64 capacity=large", "cap=%zu step %zu: element %zu is %" PRIx64, cap, i, steps, v);
